@@ -7,11 +7,41 @@ from checks import thr_common as T
 from checks import thr_scen as S
 
 
+class _Timed:
+    """wraps a module: every call of one of its functions is timed into chk.extra["phase_seconds"]"""
+
+    def __init__(self, mod, chk):
+        self._mod, self._chk = mod, chk
+
+    def __getattr__(self, name):
+        f = getattr(self._mod, name)
+        if not callable(f):
+            return f
+
+        def g(*a, **k):
+            import time
+            t0 = time.time()
+            try:
+                return f(*a, **k)
+            finally:
+                d = self._chk.extra.setdefault("phase_seconds", {})
+                key = name + (k.get("tag") or "")
+                d[key] = round(d.get(key, 0) + time.time() - t0, 1)
+        return g
+
+
 def run(pid, tier):
-    from checks import thr_model as M
+    from checks import thr_model
     chk = core.Check(pid, tier, "model_checking")
+    M = _Timed(thr_model, chk)
+    global S
+    S_timed = _Timed(S, chk)
     bindir = T.build()
     col = S.Collector(chk)
+    return _run(pid, tier, chk, M, S_timed, bindir, col)
+
+
+def _run(pid, tier, chk, M, S, bindir, col):
     # --- the model: exhaustive exploration of every interleaving of owner, thread and kernel
     M.model_check(chk, tier)
     if tier != "quick":
@@ -37,7 +67,7 @@ def run(pid, tier):
         S.perturbed(chk, col, bindir, tier)
         S.big_batches(chk, col, bindir, tier)
         # --- B2 at algorithm level: the free-running thread lives are behaviours of the model
-        M.alg_validate(chk, col, cap=400 if tier == "quick" else 3000)
+        M.alg_validate(chk, col, cap=250 if tier == "quick" else 3000)
         if tier != "quick":
             rb = T.build(release=True)
             M.replay_tours(chk, col, rb, "quick", tag="-release")
